@@ -685,3 +685,18 @@ package router
 //@   requires p != nil && p == curSlow && pkt != nil && pkt.Link != nil && p.d != nil
 //@   # the slow-path requests the fast path produces (C04-C06, C10-C13): router alerts and four SCMP error types
 //@   requires pkt.slowPathRequest.spType == slowPathRouterAlertIngress || pkt.slowPathRequest.spType == slowPathRouterAlertEgress || pkt.slowPathRequest.spType == 1 || pkt.slowPathRequest.spType == 4 || pkt.slowPathRequest.spType == 5 || pkt.slowPathRequest.spType == 6
+
+//@ # ---- C14: packet buffer ownership as seen by one stage (one goroutine): owned[q] = "this stage holds q"
+//@ # (the pool, the processor queues and the links transfer ownership; what other goroutines hold is not in this view)
+//@ ghost var owned map[*Packet]bool
+//@ # assumed: the pool hands out a packet nobody holds (channel of free packets), Put gives the packet away
+//@ func (*PacketPool).Get
+//@   trusted
+//@   modifies owned
+//@   ensures result != nil && !old(owned[result]) && owned[result]
+//@   ensures forall q *Packet :: q != result ==> owned[q] == old(owned[q])
+//@ func (*PacketPool).Put
+//@   trusted
+//@   requires owned[pkt]
+//@   modifies owned[pkt]
+//@   ensures !owned[pkt]
